@@ -75,25 +75,29 @@ TInit ==
   /\ Init
   /\ l = 2
 
+\* (every action first checks that the logged actor exists in the graph: an unknown actor is a rejected
+\* event, not an evaluation error)
 TRecv ==
   /\ IsEvent("recv")
+  /\ PId(E.p) \in Acts
   /\ \/ MainRecvFeed(E.p)
      \/ \E x \in PActs : st[x].snd = PId(E.p) /\ MainRecvSend(x)
 
-TAcquire   == IsEvent("acquire") /\ main.item = E.p /\ MainAcquire
-TRootClose == IsEvent("rootclose") /\ st[X].tok = (E.n = 1) /\ HRootClose(X)
-TStart     == IsEvent("start") /\ st[X].tok = (E.n = 1) /\ st[X].failed = E.flag /\ HStart(X)
+TAcquire   == IsEvent("acquire") /\ PId(E.p) \in Acts /\ main.item = E.p /\ MainAcquire
+TRootClose == IsEvent("rootclose") /\ X \in Acts /\ st[X].tok = (E.n = 1) /\ HRootClose(X)
+TStart     == IsEvent("start") /\ X \in Acts /\ st[X].tok = (E.n = 1) /\ st[X].failed = E.flag /\ HStart(X)
 \* a handler that skipped exec (failed) logs exec_end as well; the model went on at HStart
 TExecEnd ==
   /\ IsEvent("exec_end")
+  /\ X \in Acts
   /\ IF st[X].pc \in {"exec", "running"}
        THEN HExecEnd(X) /\ st'[X].failed = E.flag
        ELSE /\ st[X].pc \in {"release", "trigger"} /\ st[X].failed /\ E.flag /\ st[X].n = 0
             /\ UNCHANGED vars
-TRelease   == IsEvent("release") /\ HRelease(X)
-TDec       == IsEvent("dec") /\ \E tk \in st[X].trig : tk.t = T /\ HDec(X, tk)
-TEnqueue   == IsEvent("enqueue") /\ st[X].snd = T /\ HEnqueue(X)
-TAcqMaybe  == IsEvent("acquire_maybe") /\ IF E.flag THEN ASpawn(E.p, E.a) ELSE AInline(E.p, E.a)
+TRelease   == IsEvent("release") /\ X \in Acts /\ HRelease(X)
+TDec       == IsEvent("dec") /\ X \in Acts /\ \E tk \in st[X].trig : tk.t = T /\ HDec(X, tk)
+TEnqueue   == IsEvent("enqueue") /\ X \in Acts /\ st[X].snd = T /\ HEnqueue(X)
+TAcqMaybe  == IsEvent("acquire_maybe") /\ X \in Acts /\ IF E.flag THEN ASpawn(E.p, E.a) ELSE AInline(E.p, E.a)
 TFinalize  == IsEvent("finalize") /\ Finalize
 
 \* end of one log: everything has terminated; load the next graph
